@@ -7,11 +7,12 @@ import SqlizeModel.Driver.Calls
 import SqlizeModel.Driver.Version
 import SqlizeModel.Driver.Files
 import SqlizeModel.Driver.Exports
+import SqlizeModel.Driver.Race
 
 open Sqlize Sqlize.Driver
 
 def handlers : List (String × Handler) :=
-  [("snake", snakeHandler), ("pair", pairHandler), ("script", scriptHandler), ("hash", hashHandler), ("calls", callsHandler), ("version", versionHandler), ("versionexcl", versionExclHandler), ("files", filesHandler), ("filesread", filesReadHandler), ("filesmisc", filesMiscHandler), ("filesseq", filesSeqHandler), ("filesseqfast", filesSeqFastHandler), ("export", exportHandler)]
+  [("snake", snakeHandler), ("pair", pairHandler), ("script", scriptHandler), ("hash", hashHandler), ("calls", callsHandler), ("version", versionHandler), ("versionexcl", versionExclHandler), ("files", filesHandler), ("filesread", filesReadHandler), ("filesmisc", filesMiscHandler), ("filesseq", filesSeqHandler), ("filesseqfast", filesSeqFastHandler), ("export", exportHandler), ("race", raceHandler)]
 
 def handleLine (line : String) : String :=
   match SExp.parse line with
